@@ -493,6 +493,10 @@ func (encryptor *QueryDataEncryptor) getInsertPlaceholders(ctx context.Context, 
 				logger.WithFields(logrus.Fields{"value_index": i, "column_count": len(columns)}).Warningln("Amount of values in INSERT bigger than column count")
 				continue
 			}
+			// static values ('literal', DEFAULT, ...) are not placeholders and take no part in the mapping
+			if value.GetParamRef() == nil {
+				continue
+			}
 			err := encryptor.updatePlaceholderMap(valuesCount, placeholders, int(value.GetParamRef().GetNumber()), columns[i])
 			if err != nil {
 				return nil, err
@@ -585,6 +589,10 @@ func (encryptor *QueryDataEncryptor) encryptUpdateValues(ctx context.Context, up
 			continue
 		}
 
+		// static values (column = 'literal') are not placeholders and take no part in the mapping
+		if target.GetResTarget().GetVal().GetParamRef() == nil {
+			continue
+		}
 		columnName := target.GetResTarget().GetName()
 		index := int(target.GetResTarget().GetVal().GetParamRef().GetNumber())
 		err := encryptor.updatePlaceholderMap(len(values), placeholders, index, columnName)
